@@ -320,6 +320,157 @@ def random_layout(rng: random.Random, code_indent: int, want_excess: Optional[bo
     return lay
 
 
+# =============================================================================== multi-module projects
+class _Src:
+    def __init__(self, rel: str, fmt: str, planted: List[Dict[str, Any]]):
+        self.rel, self.fmt, self.planted, self.lines = rel, fmt, planted, []
+
+    def add(self, *ls: str) -> None:
+        self.lines += list(ls)
+
+    def doc(self, code_indent: int, problem: str, place: str, variant: int, name: str, has_param: bool,
+            layout: Dict[str, Any], rule: str = 'once') -> None:
+        before, blk, first_rel, prob_rel, after, msg = blocks_for(self.fmt, problem, place, variant, name, False, has_param)
+        lay = dict(layout, code_indent=code_indent, ci=code_indent)
+        value, pidx = docstring_value(lay, before, blk, after)
+        n0 = len(self.lines) + 1
+        self.lines += ((' ' * code_indent) + '"""' + value + '"""').split('\n')
+        if problem != 'none':
+            self.planted.append({'file': '@ROOT@/' + self.rel, 'msg': msg, 'problem': problem, 'rule': rule,
+                                 'first': n0 + pidx + first_rel, 'prob': n0 + pidx + prob_rel, 'n0': n0, 'end': len(self.lines)})
+
+    def text(self) -> str:
+        return '\n'.join(self.lines) + '\n'
+
+
+def build_project(fmt: str, shape: str, variant: int, layout: Dict[str, Any], k: int) -> Tuple[Dict[str, str], List[Dict[str, Any]]]:
+    planted: List[Dict[str, Any]] = []
+    pad = [('# moved' if i % 2 == 0 else '') for i in range(k)]
+    if shape == 'reexport':
+        init = _Src('pkg/__init__.py', fmt, planted)
+        init.add('"""', 'The public face of the package.', '"""', 'from ._impl import helper, Thing, second as renamed',
+                 'from ._other import untouched', '', '__all__ = ["helper", "Thing", "renamed", "untouched"]')
+        impl = _Src('pkg/_impl.py', fmt, planted)
+        impl.add(*pad)
+        impl.add('"""Implementation module."""', '')
+        p1 = ['xref', 'field', 'param'][variant % 3]
+        impl.add('def helper(a):')
+        impl.doc(4, p1, 'para2' if (p1 == 'xref' and variant % 2) else ('para' if p1 == 'xref' else '-'), variant, 'nosuchA', True, layout)
+        impl.add('    return a', '')
+        impl.add('def second(a):')
+        impl.doc(4, 'xref', 'para', variant + 1, 'nosuchB', True, layout)
+        impl.add('    return a', '')
+        impl.add('class Thing:')
+        impl.doc(4, ['field', 'xref'][variant % 2], '-' if variant % 2 == 0 else 'para', variant + 2, 'nosuchC', False, layout)
+        impl.add('    def meth(self, a):')
+        impl.doc(8, 'xref', 'para', variant + 3, 'nosuchD', True, layout)
+        impl.add('        return a')
+        other = _Src('pkg/_other.py', fmt, planted)
+        other.add('def untouched():')
+        other.doc(4, 'none', '-', variant, 'x', False, LAYOUT_BELOW)
+        other.add('    return 1')
+        srcs = [init, impl, other]
+    elif shape == 'inherit':
+        init = _Src('pkg/__init__.py', fmt, planted)
+        init.add('"""A package."""')
+        base = _Src('pkg/base.py', fmt, planted)
+        base.add(*pad)
+        base.add('"""Base module."""', '', 'class Base:')
+        base.doc(4, 'none', '-', variant, 'x', False, LAYOUT_BELOW)
+        base.add('    def meth(self, a):')
+        base.doc(8, 'markup', 'para2' if variant % 2 else 'para', variant, 'x', True, layout)
+        base.add('        return a', '')
+        base.add('    def xr(self, a):')
+        base.doc(8, 'xref', 'para', variant + 1, 'nosuchE', True, layout, rule='atleast')
+        base.add('        return a', '')
+        base.add('    def fine(self):')
+        base.doc(8, 'none', '-', variant + 1, 'x', False, LAYOUT_BELOW)
+        base.add('        return 1', '')
+        base.add(*['# filler'] * (6 + variant % 5))
+        base.add('class Sub(Base):', '    """A subclass in the same module."""', '    def meth(self, a):', '        return a + 1',
+                 '    def xr(self, a):', '        return a', '    def fine(self):', '        return 2')
+        other = _Src('pkg/other.py', fmt, planted)
+        other.add('from .base import Base', '', 'class Other(Base):', '    """A subclass in another module."""',
+                  '    def meth(self, a):', '        return a * 2', '    def xr(self, a):', '        return a', '',
+                  'class Further(Other):', '    """One more level."""', '    def meth(self, a):', '        return a * 3')
+        srcs = [init, base, other]
+    else:
+        raise ValueError(shape)
+    return {s_.rel: s_.text() for s_ in srcs}, planted
+
+
+def make_project_case(fmt: str, shape: str, variant: int, layout: Dict[str, Any], k: int, quiet: bool = True) -> Dict[str, Any]:
+    projects, planted = [], []
+    for kk in ([0] if k == 0 else [0, k]):
+        f, p = build_project(fmt, shape, variant, layout, kk)
+        projects.append(f)
+        planted.append(p)
+    return {'project': True, 'fmt': fmt, 'shape': shape, 'variant': variant, 'layout': layout, 'k': k, 'quiet': quiet,
+            'projects': projects, 'planted': planted}
+
+
+ROOT_LINE = re.compile(r'^(@ROOT@/[^:]*|pkg[\w.]*):(\d+|\?\?\?): (.*)$')
+
+
+def project_lines(stdout: List[str]) -> List[Tuple[str, str, str]]:
+    return [(m.group(1), m.group(2), m.group(3)) for m in (ROOT_LINE.match(l) for l in stdout) if m]
+
+
+def line_ok(fmt: str, p: Dict[str, Any], ln: int) -> bool:
+    if fmt == 'epytext':
+        return ln == p['first']
+    if fmt == 'restructuredtext':
+        return p['first'] <= ln <= p['prob']
+    return p['n0'] <= ln <= p['end']
+
+
+def oracle_project(case: Dict[str, Any], obs: List[Dict[str, Any]]) -> Optional[Dict[str, Any]]:
+    """Each planted problem is reported (exactly once; an xref in a docstring that several overrides inherit: at least
+    once), naming the file that CONTAINS the docstring at fault and a line inside it by the docformat's rule; nothing
+    else is reported; the exit status rule; shifting the definitions by k shifts the reports by k."""
+    fmt = case['fmt']
+    seen_lines: List[Dict[int, List[int]]] = []
+    for o, planted in zip(obs, case['planted']):
+        for key in ('status', 'statusW'):
+            if not isinstance(o[key], int):
+                return {'what': 'the run aborted: %s' % (o[key],), 'expected': 'exit status 0/2/3', 'observed': o[key]}
+        pl, plW = project_lines(o['stdout']), project_lines(o['stdoutW'])
+        want = 2 if o.get('parse_error_sections') else 0
+        if o['status'] != want:
+            return {'what': 'without --warnings-as-errors the status must be 2 exactly when something could not be parsed', 'expected': want,
+                    'observed': o['status']}
+        wantW = 3 if plW else want
+        if o['statusW'] != wantW:
+            return {'what': 'with --warnings-as-errors the status must be 3 exactly when a problem was reported (%d reported)' % len(plW),
+                    'expected': wantW, 'observed': o['statusW']}
+        hits: Dict[int, List[int]] = {i: [] for i in range(len(planted))}
+        for path, line, msg in pl:
+            cands = [i for i, p in enumerate(planted) if p['msg'] in msg]
+            good = [i for i in cands if planted[i]['file'] == path and line.isdigit() and line_ok(fmt, planted[i], int(line))]
+            if not good:
+                near = [planted[i] for i in cands]
+                return {'what': 'report %s:%s: %s names a file/line outside the docstring at fault' % (path, line, msg[:80]),
+                        'expected': [[p['file'], p['first'], p['prob'], p['n0'], p['end']] for p in near] or 'no such problem is planted',
+                        'observed': [path, line]}
+            hits[good[0]].append(int(line))
+        for i, p in enumerate(planted):
+            n = len(hits[i])
+            if n == 0:
+                continue          # not reported: only the status rule constrains that; correspondence flags the change
+            if p['rule'] == 'once' and n != 1:
+                return {'what': 'the problem planted at %s:%d (%s) is reported %d times' % (p['file'], p['first'], p['msg'], n),
+                        'expected': 1, 'observed': n}
+        seen_lines.append(hits)
+    if len(seen_lines) == 2:
+        for i in seen_lines[0]:
+            a, b = sorted(set(seen_lines[0][i])), sorted(set(seen_lines[1][i]))
+            moved = case['k'] if case['planted'][1][i]['first'] != case['planted'][0][i]['first'] else 0
+            if a and b and [x + moved for x in a] != b:
+                return {'what': 'moving the definitions down by %d lines moved a report from %s to %s' % (case['k'], a, b),
+                        'expected': [x + moved for x in a], 'observed': b}
+    return None
+
+
 # =============================================================================== the property on one run
 PROBLEM_LINE = re.compile(r'^(.*?):(\d+|\?\?\?): (.*)$')
 
@@ -580,6 +731,8 @@ class Check(PropertyCheck):
             cases.append({'op': 'tail', 'verbosity': v, 'wae': wae, 'violations': viol, 'pe': pe})
         for line in [None, 0, 1, 2, 7, 40]:
             cases.append({'op': 'rstreader', 'line': line})
+        for own, modp in (('/p/pkg/_impl.py', '/p/pkg/__init__.py'), ('/p/a.py', '/p/a.py'), (None, '/p/pkg/__init__.py'), ('/p/x.py', None), (None, None)):
+            cases.append({'op': 'descr', 'own_path': own, 'mod_path': modp})
         for n in (0, 1, 3):
             cases.append({'op': 'rstconsol', 'doc': 'Some text.\n\n' * n + ':Parameters: a b c\n', 'node_line': 2 * n + 1})
         # (h) attribute line from a field
@@ -615,6 +768,8 @@ class Check(PropertyCheck):
                 if sec == 'docstring':
                     n = len(names)
             return enc([6, c['verbosity'], c['wae'], "these %d objects' docstrings contain syntax errors:" % n, c['violations'], c['pe']])
+        if op == 'descr':
+            return enc([10, [] if c['own_path'] is None else [c['own_path']], 'pkg'])
         if op == 'rstconsol':
             return enc([9, c['node_line']])
         if op == 'rstreader':
@@ -636,6 +791,8 @@ class Check(PropertyCheck):
             mm, ii = [m[0], [txt(x) for x in m[1]], sorted(txt(x) for x in m[2])], r[:3]
         elif op == 'tail':
             mm, ii = m, r
+        elif op == 'descr':
+            mm, ii = txt(m), r
         elif op in ('rstreader', 'rstconsol'):
             mm, ii = [m[0][0] if m[0] else None, m[1]], r
         elif op == 'attrline':
@@ -735,7 +892,7 @@ class Check(PropertyCheck):
         t = case['truth'][idx]
         rep = [r for r in o.get('reports', []) if r[0] == case['target']]
         probs = []
-        for fullname, section, off, descr, thresh in rep:
+        for fullname, section, off, descr, thresh in [r[:5] for r in rep]:
             if section == 'docstring' and descr.startswith('bad docstring: '):
                 probs.append([0, descr[len('bad docstring: '):], [off]])
             elif section == 'docstring':
@@ -748,8 +905,13 @@ class Check(PropertyCheck):
                     t['def_line'], 1, t['n0'], case['value'], probs])
 
     def run_e2e(self, cases: List[Dict[str, Any]], out: List[Violation], record: bool = True) -> None:
-        payload = [{'sources': c['sources'], 'fmt': c['fmt'], 'target': c['target'], 'quiet': c['quiet']} for c in cases]
-        impl = lib.run_impl_worker('c16_e2e.py', payload, jobs=16, timeout=3000)
+        pcases = [c for c in cases if c.get('project')]
+        cases = [c for c in cases if not c.get('project')]
+        payload = [{'projects': c['projects'], 'fmt': c['fmt'], 'quiet': c['quiet']} for c in pcases] + \
+                  [{'sources': c['sources'], 'fmt': c['fmt'], 'target': c['target'], 'quiet': c['quiet']} for c in cases]
+        impl_all = lib.run_impl_worker('c16_e2e.py', payload, jobs=16, timeout=3000)
+        self.run_projects(pcases, impl_all[:len(pcases)], out, record)
+        impl = impl_all[len(pcases):]
         minputs: List[str] = []
         where: List[Tuple[int, int, bool]] = []
         for ci, (c, obs) in enumerate(zip(cases, impl)):
@@ -833,13 +995,80 @@ class Check(PropertyCheck):
             for c in cases[5:7] + cases[-2:]:
                 self.sample({k: c[k] for k in ('fmt', 'kind', 'problem', 'place', 'layout', 'k', 'truth')} | {'source': c['sources'][-1]})
 
+    def project_cases(self, rng: random.Random, n_random: int) -> List[Dict[str, Any]]:
+        cases = []
+        v = 0
+        for fmt in FMTS:
+            for shape in ('reexport', 'inherit'):
+                for lay in (LAYOUT_BELOW, LAYOUT_OPEN):
+                    v += 1
+                    cases.append(make_project_case(fmt, shape, v, lay, k=(0 if v % 2 else 3)))
+        for _ in range(n_random):
+            cases.append(make_project_case(rng.choice(FMTS), rng.choice(['reexport', 'inherit']), rng.randrange(1000),
+                                           rng.choice([LAYOUT_BELOW, LAYOUT_OPEN]), k=rng.choice([0, 1, 4, 9]), quiet=rng.random() < 0.8))
+        return cases
+
+    def run_projects(self, cases: List[Dict[str, Any]], impl: List[Any], out: List[Violation], record: bool = True) -> None:
+        minputs: List[str] = []
+        where: List[Tuple[int, int, int]] = []
+        for ci, (c, obs) in enumerate(zip(cases, impl)):
+            for si, o in enumerate(obs):
+                for ri, r in enumerate(o.get('reports', [])):
+                    desc = r[5] if r[5] is not None else r[9]
+                    minputs.append(enc([3, -1 if c['quiet'] else 0, r[1], r[6], r[7], r[2], r[8], desc, r[3], r[4]]))
+                    where.append((ci, si, ri))
+        mouts = self.model('lines', minputs)
+        pred: Dict[Tuple[int, int], List[str]] = {}
+        for w, m in zip(where, mouts):
+            d = dec(m)
+            for x in d[1]:
+                pred.setdefault((w[0], w[1]), []).append(txt(x).split('\n')[0])
+        ncorr = 0
+        for ci, (c, obs) in enumerate(zip(cases, impl)):
+            if record:
+                self.evaluations += len(obs)
+                self.count('project_runs', len(obs))
+                self.count('project_' + c['shape'] + '_' + c['fmt'])
+            bad = None
+            for si, o in enumerate(obs):
+                if not isinstance(o.get('status'), int):
+                    bad = ('the run aborted', 'exit status', o.get('status'))
+                    break
+                got = ['%s:%s: %s' % p for p in project_lines(o['stdout'])]
+                want = pred.get((ci, si), [])
+                if sorted(got) != sorted(want):
+                    bad = ('project: the reports on stdout are not what Documentable.report is modelled to print '
+                           '(own source path, docstring line + offset)', sorted(want), sorted(got))
+                    break
+                for p in c['planted'][si]:
+                    if not [g for g in got if p['msg'] in g]:
+                        bad = ('project: the planted problem is no longer reported', p['msg'], got)
+                        break
+                if bad:
+                    break
+            if bad is not None:
+                ncorr += 1
+                if ncorr <= 10:
+                    out.append(Violation('correspondence', bad[0], case=c, expected=bad[1], observed=bad[2]))
+            orc = oracle_project(c, obs)
+            if orc is not None:
+                out.append(Violation('oracle', orc['what'], case=c, expected=orc['expected'], observed=orc['observed']))
+                if record:
+                    self.count('project_oracle_failures')
+            elif record:
+                self.nontrivial.add(json.dumps(c['projects'][0], sort_keys=True))
+        if record and cases:
+            self.sample({k2: cases[0][k2] for k2 in ('fmt', 'shape', 'k', 'planted')} | {'files': cases[0]['projects'][-1]})
+
     # ---------------------------------------------------------------------------------------------- driver hooks
     def correspondence(self) -> List[Violation]:
         out: List[Violation] = []
         self.run_unit(out)
-        nrand = 180 if self.tier == "quick" else 6000
-        cases = self.e2e_cases(nrand, self.rng)
+        nrand = 150 if self.tier == "quick" else 6000
+        nproj = 10 if self.tier == 'quick' else 600
+        cases = self.project_cases(self.rng, nproj) + self.e2e_cases(nrand, self.rng)
         self.stats['e2e_random'] = nrand
+        self.stats['project_random'] = nproj
         self.run_e2e(cases, out)
         self.exhaustive = True
         self.notes.append('exhaustive: unit domains named in `rule`; the e2e grid covers every docformat x owner kind x problem x place '
@@ -849,7 +1078,7 @@ class Check(PropertyCheck):
         # prefer a generated module as the concrete failing input: when an end-to-end run already fails the property
         # (and is not a known finding), the unit-level msg()/exit-status oracle failures only repeat it
         known, _ = lib.load_known_findings(self.id)
-        e2e_fail = [v for v in out if v.kind == 'oracle' and isinstance(v.case, dict) and 'sources' in v.case
+        e2e_fail = [v for v in out if v.kind == 'oracle' and isinstance(v.case, dict) and ('sources' in v.case or 'projects' in v.case)
                     and self.classify_known(v, known) is None]
         if e2e_fail:
             out = [v for v in out if not (v.kind == 'oracle' and isinstance(v.case, dict) and v.case.get('op') in ('msgs', 'tail'))]
@@ -858,7 +1087,7 @@ class Check(PropertyCheck):
     def search(self, broken: List[Violation]) -> List[Violation]:
         out: List[Violation] = []
         rng = random.Random(self.seed + 1)
-        cases = self.e2e_cases(400 if self.tier == 'quick' else 3000, rng, grid=False)
+        cases = self.project_cases(rng, 40) + self.e2e_cases(400 if self.tier == 'quick' else 3000, rng, grid=False)
         self.run_e2e(cases, out, record=False)
         known, _ = lib.load_known_findings(self.id)
         return [v for v in out if v.kind == 'oracle' and self.classify_known(v, known) is None]
@@ -925,6 +1154,22 @@ class Check(PropertyCheck):
                 print('model    :', d[0] if d else 'agrees')
                 return 1 if d else 0
             return 0
+        if isinstance(case, dict) and case.get('project'):
+            obs = lib.run_impl_worker('c16_e2e.py', [{'projects': case['projects'], 'fmt': case['fmt'], 'quiet': case['quiet']}])[0]
+            for si, (files, o, planted) in enumerate(zip(case['projects'], obs, case['planted'])):
+                print('--- project (k=%d), docformat %s, shape %s' % (0 if si == 0 else case['k'], case['fmt'], case['shape']))
+                for rel, src in files.items():
+                    print('  ----', rel)
+                    for i, l in enumerate(src.split('\n')[:-1], 1):
+                        print('  %4d| %s' % (i, l))
+                for p in planted:
+                    print('planted : %s in %s -- block starts on line %d, problem on line %d, docstring literal lines %d-%d (%s)'
+                          % (p['problem'], p['file'], p['first'], p['prob'], p['n0'], p['end'], p['msg']))
+                print('stdout  :', ['%s:%s: %s' % p for p in project_lines(o['stdout'])])
+                print('status  : %s ; with --warnings-as-errors: %s' % (o['status'], o['statusW']))
+            orc = oracle_project(case, obs)
+            print('property:', (orc['what'] + ' expected=%s observed=%s' % (orc['expected'], orc['observed'])) if orc else 'holds on this input')
+            return 1 if orc else 0
         obs = lib.run_impl_worker('c16_e2e.py', [{'sources': case['sources'], 'fmt': case['fmt'], 'target': case['target'],
                                                   'quiet': case['quiet']}])[0]
         for si, (src, o, t) in enumerate(zip(case['sources'], obs, case['truth'])):
